@@ -17,6 +17,7 @@ From Utp Require Import Pair.Pair.
 From Utp Require Import Conn.C04_Pred Conn.C0506_Pred2 Conn.C14C08_Pred Conn.C14_Pred2 Conn.C08_Pred2.
 From Utp Require Import Conn.C04_Pred Conn.C0506_Pred2 Conn.C14C08_Pred.
 From Utp Require Import Conn.C11_Pred Sock.DispC11_Pred Conn.C04_Pred2 Conn.C05_Pred3 Cubic.C15_Pred2 Conn.C18_Pred2 Conn.C06_Pred2 Pair.C02_PairPred.
+From Utp Require Import Conn.C11_Pred Sock.DispC11_Pred Conn.C04_Pred2 Conn.C05_Pred3 Cubic.C15_Pred2 Conn.C18_Pred2 Conn.C06_Pred2 Sock.DispC13_Pred.
 From Utp Require Import Conn.Recovery Conn.Msg Conn.VSockRec Conn.VSock Conn.VSockRun Conn.VObs.
 
 Extraction Language OCaml.
@@ -54,6 +55,7 @@ Extraction "model"
   c05_window_ok2 c05_rto_exit_ok2 c05_zero_window_ok_open c05_zero_window_strict_or_d16_open c05_monitor_core_ok c05_win_guard
   c15_obs_ok_b setmss_runs_ok
   c10_disp_step_ok c10_disp_bounds_ok c10_disp_trace_ok parse_raw dmsg_of_header handle_recv_raw rtrace
+  c13_pending_ok c13_no_empty_entry_ok
   c18_off_all_segmented_ok c18_drain_sends_ok c18_buffered_segmented_ok c18_pre_ok
   c06_emitted_live_ok_g c06_no_resend_acked_g c06_fast_retx_ok_g
   c02_pair_settled_ok
